@@ -1,7 +1,7 @@
 #!/bin/bash
 # usage: tools_mut.sh <PROP> <patchfile> [-R]   : apply patch to a scratch copy of /repo/src and run the quick check on it
 set -e
-PROP=$1; PATCH=$2; REV=$3
+PROP=$1; PATCH=$(readlink -f $2); REV=$3
 T=$(mktemp -d /tmp/mutXXXX)
 mkdir -p $T/repo && cp -r /repo/src $T/repo/src
 (cd $T/repo && patch -p1 -s $REV < $PATCH)
